@@ -10,8 +10,9 @@ Open Scope string_scope.
 Definition rng_state := ["ran_x"; "ran_arr_buf"; "ran_arr_ptr"; "ran_arr_dummy"; "ran_arr_started"].
 (* the shared token pool (token.c): protocol proved in C18; absent with DISABLE_OBJECT_POOL *)
 Definition pool_state := ["token:token_pool"; "token:token_pool_count"].
-(* verification hook H3 (only with -DMMD6_VERIF): read by the library, written only by the harness *)
-Definition hook_state := ["verif_parse_trace"].
+(* verification hooks (only with -DMMD6_VERIF): H3 verif_parse_trace is read by the library and written only by the
+   harness; H2 verif_pair_steps is a per-thread work counter the library increments and never reads *)
+Definition hook_state := ["verif_parse_trace"; "verif_pair_steps"].
 
 (* libc functions whose result depends on something other than their arguments *)
 Definition nondeterministic_libc := ["rand"; "srand"; "random"; "srandom"; "time"; "clock"; "gettimeofday"; "clock_gettime";
